@@ -628,17 +628,15 @@ def r10_10(ctx: Ctx) -> RuleResult:
 
 
 # --------------------------------------------------------------------------- R10.11
-class _Model:
-    """Abstract execution of the printers (`__str__`, `_canonical_string`, helper methods) on small
-    filter-expression trees: sa/peval.py walks the methods' canonical bodies with `self` and the operands
-    bound to model objects; nothing of the library is run."""
+from .model import MObj as _MObjBase  # noqa: E402
+from .model import Model as _ModelBase  # noqa: E402
 
+
+class _Model(_ModelBase):
     def __init__(self, ctx: Ctx) -> None:
-        self.ctx = ctx
-        self.depth = 0
-        self.cache: Dict[Tuple[int, str, Tuple[object, ...]], object] = {}
+        super().__init__(ctx, "R10.11")
 
-    def new(self, cls: str, **kwargs: object) -> "_FNode":
+    def new(self, cls: str, **kwargs: object) -> "_FNode":  # type: ignore[override]
         obj = _FNode(self, cls, {})
         init = self.ctx.repo.find_method(self.ctx.repo.require_class(cls), "__init__")
         if init is None:
@@ -649,89 +647,8 @@ class _Model:
         self.call(obj, "__init__", [], kwargs)
         return obj
 
-    def call(self, obj: "_FNode", method: str, args: List[object], kwargs: Optional[Dict[str, object]] = None) -> object:
-        from sa.peval import UNKNOWN
-        from sa.peval import Explorer
 
-        fn = self.ctx.repo.find_method(self.ctx.repo.require_class(obj.cls), method)
-        if fn is None:
-            return UNKNOWN
-        key = (obj.uid, fn.qualname, tuple(("$node", a.uid) if isinstance(a, _FNode) else a for a in args))
-        if method != "__init__" and not kwargs and key in self.cache:
-            return self.cache[key]
-        if self.depth > 12:  # noqa: PLR2004
-            raise AnalysisError("R10.11: printer recursion too deep")
-        params = [a.arg for a in fn.node.args.args]
-        static = any(isinstance(d, ast.Name) and d.id == "staticmethod" for d in fn.node.decorator_list)
-        env: Dict[str, object] = {}
-        if not static and params:
-            env[params[0]] = obj
-            params = params[1:]
-        for pname, a in zip(params, args):
-            env[pname] = a
-        for k, v in (kwargs or {}).items():
-            env[k] = v
-        defaults = fn.node.args.defaults
-        for pname, d in zip(params[len(params) - len(defaults):], defaults):
-            if pname not in env:
-                env[pname] = self.ctx.folder.try_eval_in(d, fn.module, fn.cls) if hasattr(self.ctx.folder, "try_eval_in") else UNKNOWN
-        ex: Explorer
-
-        def on_call(e: ast.Call, a: List[object], env2: Dict[str, object]) -> object:
-            if isinstance(e.func, ast.Attribute) and isinstance(e.func.value, (ast.Name, ast.Attribute)):
-                base = ex.value(e.func.value, env2)
-                if isinstance(base, _FNode):
-                    kw = {k.arg: ex.value(k.value, env2) for k in e.keywords if k.arg}
-                    return self.call(base, e.func.attr, list(a), kw)
-            return None
-
-        ex = Explorer(self.ctx.folder, fn, on_call=on_call)
-        self.depth += 1
-        try:
-            outs = ex.run(env)
-        finally:
-            self.depth -= 1
-        if method == "__init__":
-            return None
-        vals = [v for k, _n, v in outs if k == "return"]
-        others = [k for k, _n, _v in outs if k != "return"]
-        res: object = UNKNOWN
-        if vals and not others and all(v == vals[0] for v in vals):
-            res = vals[0]
-        if not kwargs:
-            self.cache[key] = res
-        return res
-
-
-from sa.peval import AbstractObject as _AbstractObject  # noqa: E402
-
-
-class _FNode(_AbstractObject):
-    _count = 0
-
-    def __init__(self, model: _Model, cls: str, fields: Dict[str, object]) -> None:
-        self.model = model
-        self.cls = cls
-        self.fields = fields
-        _FNode._count += 1
-        self.uid = _FNode._count
-
-    def peval_getattr(self, name: str) -> object:
-        from sa.peval import UNKNOWN
-
-        return self.fields.get(name, UNKNOWN)
-
-    def peval_setattr(self, name: str, value: object) -> None:
-        self.fields[name] = value
-
-    def peval_str(self) -> object:
-        if "$text" in self.fields:
-            return self.fields["$text"]
-        return self.model.call(self, "__str__", [])
-
-    def peval_isinstance(self, class_names: List[str]) -> Optional[bool]:
-        return any(self.model.ctx.repo.is_subclass(self.cls, c) for c in class_names)
-
+class _FNode(_MObjBase):
     def shape(self) -> object:
         if "$text" in self.fields:
             return self.fields["$text"]
